@@ -25,7 +25,12 @@ META = dict(
           "point-estimate set; distinct = distinct descriptor"),
     assumptions=["value compared at 1e-11 relative, gradient/metric norm-wise 1e-9",
                  "kl_map='lmap' only with jit=False (lmap is a Python loop and cannot be traced)",
-                 "Poissonian models use rate exp(s) with |s| kept moderate by the generator"],
+                 "Poissonian models use rate exp(s) with |s| kept moderate by the generator",
+                 "the value is compared with the average of the *full* Hamiltonian (incl. the prior "
+                 "energy of constant keys), as the property states",
+                 "hand-made lists go through SampledKLEnergyClass without keys that are both constant "
+                 "and point-estimated (that split is only reachable through SampledKLEnergy)",
+                 "JAX cases are not started with < 30 s of budget left (counted as skipped)"],
     need=["cl_value", "cl_gradient", "cl_metric", "cl_at_residuals", "cl_constants_minimise",
           "re_value_grad", "re_metric", "re_constants_reduced", "re_constants_minimise", "re_at"],
     quick=dict(cases=900, workers=8, budget_s=75),
